@@ -1,0 +1,20 @@
+//go:build verif
+
+// Contracts for channel metadata creation (read as text by /verif's govc; comment-only).
+// Crash safety of meta.json (C02): the only file-system call that names meta.json is the final
+// Rename, issued after a complete encoding went to meta.json.tmp and its handle was closed
+// without error; every other call names the temporary file. With an atomic rename, meta.json is
+// at every crash point either absent/old or completely new.
+
+package meta
+
+//@ ignorepkg github.com/synnaxlabs/cesium/internal/channel
+//@ ignorepkg github.com/synnaxlabs/x/errors
+//@ ignorepkg github.com/synnaxlabs/x/io/fs
+//@ ignorepkg io
+
+//@ func Create(ctx context.Context, fs fs.FS, codec encoding.Encoder, ch channel.Channel) (err error)
+//@   atcall Open name == metaTempFile
+//@   atcall Remove arg0 == metaTempFile
+//@   atcall Rename oldPath == metaTempFile && newPath == metaFile && err == nil && encoding.SpecEncodedTo[tempMetaF]
+//@   modifies encoding.SpecEncodedTo
